@@ -418,14 +418,14 @@ fn oracle_c11(env: &Env, txs: &[Transaction], acc: &mut Acc) -> Vec<Obs> {
         for y in &rep.tax_years {
             for d in &y.disposals {
                 for m in &d.matches {
-                    if m.allowable_cost < Decimal::ZERO && !Rat::from_dec(m.allowable_cost).negligible() {
+                    if shown_negative(m.allowable_cost) {
                         res.push(ob("negative-cost", format!("disposal {} {}: leg with allowable cost {}", d.date, d.ticker, m.allowable_cost)));
                     }
                 }
             }
         }
         for h in &rep.holdings {
-            if h.total_cost < Decimal::ZERO && !Rat::from_dec(h.total_cost).negligible() {
+            if shown_negative(h.total_cost) {
                 res.push(ob("negative-cost", format!("holding {} with cost {}", h.ticker, h.total_cost)));
             }
         }
@@ -760,6 +760,13 @@ fn oracle_c09(env: &Env, txs: &[Transaction], acc: &mut Acc) -> Vec<Obs> {
 }
 
 // ---------------------------------------------------------------------------------------------- C12
+/// "Reported with negative allowable cost": every front-end shows money rounded to pence, midpoints away from zero
+/// (C17), so a cost is reported as negative exactly when that rounding is below zero (-0.004 is shown as £0.00,
+/// -0.005 as -£0.01).
+fn shown_negative(cost: Decimal) -> bool {
+    cost.round_dp_with_strategy(2, rust_decimal::RoundingStrategy::MidpointAwayFromZero) < Decimal::ZERO
+}
+
 fn suffix_events(tk: &str, t: NaiveDate) -> Vec<Transaction> {
     let mut v = vec![];
     // T+31, T+32, T+45, and the two sides of the next tax-year boundary that lies more than 30 days after T
@@ -1227,6 +1234,8 @@ pub fn c11(tier: Tier) -> i32 {
     explore_alpha("C11", &mut ctx, &env, &profiles::events_two_adj(), n_ev + 2, &mut acc);
     explore_alpha("C11", &mut ctx, &env, &profiles::events_fx(), n_ev, &mut acc);
     explore_alpha("C11", &mut ctx, &env, &profiles::events_same_day(), n_ev + 1, &mut acc);
+    // costs within a fraction of a penny of zero, on and around the half-penny midpoints
+    explore_alpha("C11", &mut ctx, &env, &profiles::events_penny(), n_ev + 3, &mut acc);
     for k in ["adjustment-differential(position>0)", "adjustment-before-any-acquisition", "dividend-differential", "cancelling-pair-inserted", "bracket:return-absorbable", "bracket:return-exceeds-all-expenditure"] {
         ctx.require(acc.get(k) > 0, &format!("no state exhibited {k}"));
     }
